@@ -40,7 +40,7 @@ Final(c) ==
                 \* caller prints after binding ITS query is the one it prints alone (no other statement's text or caret in it)
                 \/ (c.results[p].hasalone /\ (\/ c.results[p].phase # c.results[p].alonephase
                                                \/ c.results[p].rendered # c.results[p].alonerendered
-                                               \/ (c.stmts[p].kind = "select" /\ c.results[p].rows # c.results[p].alonerows)))
+                                               \/ c.results[p].rows # c.results[p].alonerows))      \* (writers report their counts)
                 \/ (~c.results[p].hasalone /\ c.results[p].phase # "done")
                 \* and, where the contract models the statement, what the contract gives for it alone on the initial store
                 \/ (c.stmts[p].kind = "select" /\ c.results[p].phase = "done" /\ LET base == BaseRows(c.stmts[p], c.store) IN
